@@ -1,12 +1,11 @@
 SPECIFICATION Spec
 CONSTANTS
-  Miner = {"m1", "m2", "m3", "m4"}
+  Miner = {"m1", "m2", "m3"}
   Byz = {}
-  T = 3
+  T = 2
   MaxRound = 2
   MaxBlocksPerRound = 2
   MultiVote = TRUE
   Confirm = 1
 INVARIANTS Agreement FinalizedIsNotarized
-PROPERTY LFBMonotone
 CHECK_DEADLOCK FALSE
